@@ -118,6 +118,9 @@ pub struct RawCommit {
     pub force_self_update: bool,
     /// self-update path with a different credential identity
     pub new_identity: Option<PublicKey>,
+    /// with `new_identity`: the new leaf also carries a fresh signature key (the commit is signed
+    /// with the old one, the leaf with the new one - `build_with_new_signer`)
+    pub new_signer: bool,
 }
 
 /// A commit built directly with the OpenMLS commit builder from the member's stored group state.
@@ -126,6 +129,7 @@ pub struct RawCommit {
 pub fn mls_commit<S: MdkStorageProvider>(m: &MDK<S>, gid: &GroupId, c: &RawCommit, keep_pending: bool) -> Option<(Vec<u8>, Option<Vec<u8>>)> {
     let mut grp = m.load_mls_group(gid).ok().flatten()?;
     let sg = signer(m, &grp)?;
+    let sig_alg = grp.ciphersuite().signature_algorithm();
     let removes: Vec<LeafNodeIndex> = c.removes.iter().filter_map(|pk| leaf_of(m, gid, pk)).collect();
     let mut b = grp.commit_builder().consume_proposal_store(c.consume_queue).force_self_update(c.force_self_update).propose_adds(c.adds.clone()).propose_removals(removes);
     if let Some(bytes) = &c.gce {
@@ -133,12 +137,30 @@ pub fn mls_commit<S: MdkStorageProvider>(m: &MDK<S>, gid: &GroupId, c: &RawCommi
         ext.add_or_replace(Extension::Unknown(0xF2EE, UnknownExtension(bytes.clone()))).ok()?;
         b = b.propose_group_context_extensions(ext).ok()?;
     }
+    let mut fresh: Option<(SignatureKeyPair, CredentialWithKey)> = None;
     if let Some(pk) = &c.new_identity {
         let cred = BasicCredential::new(pk.to_bytes().to_vec());
-        let cwk = CredentialWithKey { credential: cred.into(), signature_key: sg.public().into() };
-        b = b.leaf_node_parameters(LeafNodeParameters::builder().with_credential_with_key(cwk).build());
+        let own = grp_leaf_params(m, gid);
+        if c.new_signer {
+            let ns = SignatureKeyPair::new(sig_alg).ok()?;
+            ns.store(m.provider.storage()).ok()?;
+            let cwk = CredentialWithKey { credential: cred.into(), signature_key: ns.public().into() };
+            let mut pb = LeafNodeParameters::builder().with_credential_with_key(cwk.clone());
+            if let Some((caps, exts)) = own {
+                pb = pb.with_capabilities(caps).with_extensions(exts);
+            }
+            b = b.leaf_node_parameters(pb.build());
+            fresh = Some((ns, cwk));
+        } else {
+            let cwk = CredentialWithKey { credential: cred.into(), signature_key: sg.public().into() };
+            b = b.leaf_node_parameters(LeafNodeParameters::builder().with_credential_with_key(cwk).build());
+        }
     }
-    let built = b.load_psks(m.provider.storage()).ok()?.build(m.provider.rand(), m.provider.crypto(), &sg, |_| true).ok()?;
+    let b = b.load_psks(m.provider.storage()).ok()?;
+    let built = match &fresh {
+        Some((ns, cwk)) => b.build_with_new_signer(m.provider.rand(), m.provider.crypto(), &sg, NewSignerBundle { signer: ns, credential_with_key: cwk.clone() }, |_| true).ok()?,
+        None => b.build(m.provider.rand(), m.provider.crypto(), &sg, |_| true).ok()?,
+    };
     let bundle = built.stage_commit(&m.provider).ok()?;
     let commit = bundle.commit().tls_serialize_detached().ok()?;
     let welcome = bundle.to_welcome_msg().and_then(|w| w.tls_serialize_detached().ok());
@@ -147,6 +169,12 @@ pub fn mls_commit<S: MdkStorageProvider>(m: &MDK<S>, gid: &GroupId, c: &RawCommi
         let _ = grp2.clear_pending_commit(m.provider.storage());
     }
     Some((commit, welcome))
+}
+
+fn grp_leaf_params<S: MdkStorageProvider>(m: &MDK<S>, gid: &GroupId) -> Option<(Capabilities, Extensions<LeafNode>)> {
+    let grp = m.load_mls_group(gid).ok().flatten()?;
+    let leaf = grp.own_leaf()?;
+    Some((leaf.capabilities().clone(), leaf.extensions().clone()))
 }
 
 /// Raw bytes of the marmot group-data extension currently in the member's group context.
